@@ -142,7 +142,8 @@ Record coh (s : st) : Prop := {
   coh_srev : s_rev (si s) = rb <$> rows s;
   coh_lov : ov_ok ra (lov s) (txs s);
   coh_sov : ov_ok rb (sov s) (txs s);
-  coh_dedup : dedup s = true
+  coh_dedup : dedup s = true;
+  coh_valid : lbad s = false /\ sbad s = false
 }.
 
 (* the view of a reader is keyed consistently *)
@@ -252,7 +253,7 @@ Proof. unfold is_open. intros H. apply bool_decide_eq_true in H as [b Hb]. by ex
 (* ---- writes ---- *)
 Lemma coh_w_set s t r : coh s -> is_open s t = true -> coh (w_set t r s).
 Proof.
-  intros Hc Ho. destruct Hc as [Hk Hbk Ht0 Hlw Hlr Hsw Hsr Hlo Hso Hdd].
+  intros Hc Ho. destruct Hc as [Hk Hbk Ht0 Hlw Hlr Hsw Hsr Hlo Hso Hdd Hva].
   destruct t as [|t]; simpl.
   - assert (Hk' : key_ok (<[rk r := r]> (rows s))).
     { intros k r'. destruct (decide (k = rk r)) as [->|Hne].
@@ -274,7 +275,7 @@ Proof.
 Qed.
 Lemma coh_w_del s t k : coh s -> is_open s t = true -> coh (w_del t k s).
 Proof.
-  intros Hc Ho. destruct Hc as [Hk Hbk Ht0 Hlw Hlr Hsw Hsr Hlo Hso Hdd].
+  intros Hc Ho. destruct Hc as [Hk Hbk Ht0 Hlw Hlr Hsw Hsr Hlo Hso Hdd Hva].
   destruct t as [|t]; simpl.
   - assert (Hk' : key_ok (delete k (rows s))).
     { intros k' r'. destruct (decide (k' = k)) as [->|Hne].
@@ -325,15 +326,16 @@ Lemma observe_spec b : forall s (m0 : table),
   l_wf (li (observe b s)) /\ l_rev (li (observe b s)) = ra <$> apply_batch b m0 /\
   s_wf (si (observe b s)) /\ s_rev (si (observe b s)) = rb <$> apply_batch b m0 /\
   rows (observe b s) = rows s /\ lov (observe b s) = lov s /\ sov (observe b s) = sov s /\
-  txs (observe b s) = txs s /\ mode1 (observe b s) = mode1 s /\ dedup (observe b s) = dedup s.
+  txs (observe b s) = txs s /\ mode1 (observe b s) = mode1 s /\ dedup (observe b s) = dedup s /\
+  lbad (observe b s) = lbad s /\ sbad (observe b s) = sbad s.
 Proof.
   induction b as [|[k [r|]] b IH]; intros s m0 Hlw Hlr Hsw Hsr; simpl.
   - done.
-  - destruct (IH (obs1 s (k, Some r)) (apply1 m0 (k, Some r))) as (H1 & H2 & H3 & H4 & H5 & H6 & H7 & H8 & H9 & H10);
+  - destruct (IH (obs1 s (k, Some r)) (apply1 m0 (k, Some r))) as (H1 & H2 & H3 & H4 & H5 & H6 & H7 & H8 & H9 & H10 & H11 & H12);
       simpl; [by apply l_put_wf|by rewrite l_rev_put, Hlr; unfold apply1; simpl; rewrite fmap_insert|by apply s_set_wf
              |by rewrite s_rev_set, Hsr; unfold apply1; simpl; rewrite fmap_insert|].
     unfold observe in *. simpl in *. done.
-  - destruct (IH (obs1 s (k, None)) (apply1 m0 (k, None))) as (H1 & H2 & H3 & H4 & H5 & H6 & H7 & H8 & H9 & H10);
+  - destruct (IH (obs1 s (k, None)) (apply1 m0 (k, None))) as (H1 & H2 & H3 & H4 & H5 & H6 & H7 & H8 & H9 & H10 & H11 & H12);
       simpl; [by apply l_del_wf|by rewrite l_rev_del, Hlr; unfold apply1; simpl; rewrite fmap_delete|by apply s_del_wf
              |by rewrite s_rev_del, Hsr; unfold apply1; simpl; rewrite fmap_delete|].
     unfold observe in *. simpl in *. done.
@@ -355,7 +357,7 @@ Qed.
 
 Lemma coh_commit s t : coh s -> is_open s (S t) = true -> coh (commit (S t) s).
 Proof.
-  intros Hc Ho. destruct Hc as [Hk Hbk Ht0 Hlw Hlr Hsw Hsr Hlo Hso Hdd].
+  intros Hc Ho. destruct Hc as [Hk Hbk Ht0 Hlw Hlr Hsw Hsr Hlo Hso Hdd Hva].
   apply is_open_S in Ho as [b Hb].
   unfold commit. set (s1 := kv_commit (S t) s).
   (* the state after the kv commit *)
@@ -365,13 +367,18 @@ Proof.
                lov s1 = lov s /\ sov s1 = sov s /\ txs s1 = txs s /\ mode1 s1 = mode1 s /\ dedup s1 = dedup s /\
                (b = [] -> li s1 = li s /\ si s1 = si s)).
   { unfold s1, kv_commit. rewrite Hb. simpl. destruct (mode1 s) eqn:Em.
-    - destruct (observe_spec b (St (apply_batch b (rows s)) (li s) (si s) (lov s) (sov s) (txs s) true (dedup s)) (rows s))
-        as (A1 & A2 & A3 & A4 & A5 & A6 & A7 & A8 & A9 & A10); simpl; try done.
+    - destruct (observe_spec b (St (apply_batch b (rows s)) (li s) (si s) (lov s) (sov s) (txs s) true (dedup s) (lbad s) (sbad s)) (rows s))
+        as (A1 & A2 & A3 & A4 & A5 & A6 & A7 & A8 & A9 & A10 & A11 & A12); simpl; try done.
       rewrite A5, A6, A7, A8, A9, A10. simpl. rewrite <- apply_batch_wmap.
       split; [done|]. split; [done|]. split; [by right|]. split; [done|]. split; [by right|].
       repeat (split; [done|]). by intros ->.
     - simpl. rewrite <- apply_batch_wmap. split; [done|]. split; [done|]. split; [by left|].
       split; [done|]. split; [by left|]. repeat (split; [done|]). done. }
+  assert (Hbad1 : lbad s1 = lbad s /\ sbad s1 = sbad s).
+  { unfold s1, kv_commit. destruct (mode1 s); [|done].
+    destruct (observe_spec (default [] (txs s !! S t))
+       (St (apply_batch (default [] (txs s !! S t)) (rows s)) (li s) (si s) (lov s) (sov s) (txs s) true (dedup s) (lbad s) (sbad s)) (rows s))
+      as (_ & _ & _ & _ & _ & _ & _ & _ & _ & _ & A11 & A12); simpl; done. }
   destruct H1 as (Hr1 & Hlw1 & Hlr1 & Hsw1 & Hsr1 & Hlo1 & Hso1 & Htx1 & Hm1 & Hd1 & Hnil).
   assert (Hbok : batch_ok b) by (by eapply Hbk).
   (* the lookup index after the flush *)
@@ -406,11 +413,12 @@ Proof.
   - simpl. rewrite Hlo1, Htx1. by apply ov_ok_delete.
   - simpl. rewrite Hso1, Htx1. by apply ov_ok_delete.
   - simpl. by rewrite Hd1.
+  - simpl. destruct Hbad1 as [-> ->]. done.
 Qed.
 
 Lemma coh_abort s t : coh s -> coh (abort t s).
 Proof.
-  intros [Hk Hbk Ht0 Hlw Hlr Hsw Hsr Hlo Hso Hdd]. unfold abort, cleanups. simpl.
+  intros [Hk Hbk Ht0 Hlw Hlr Hsw Hsr Hlo Hso Hdd Hva]. unfold abort, cleanups. simpl.
   assert (E1 : match lov s !! t with Some _ => li s | None => li s end = li s) by (by destruct (lov s !! t)).
   assert (E2 : match sov s !! t with Some _ => si s | None => si s end = si s) by (by destruct (sov s !! t)).
   rewrite E1, E2. split; simpl; try done.
@@ -424,9 +432,9 @@ Qed.
 (* ---- replicated writes ---- *)
 Lemma coh_replicate s b : coh s -> batch_ok b -> coh (replicate b s).
 Proof.
-  intros [Hk Hbk Ht0 Hlw Hlr Hsw Hsr Hlo Hso Hdd] Hb. unfold replicate.
-  destruct (observe_spec b (St (apply_batch b (rows s)) (li s) (si s) (lov s) (sov s) (txs s) (mode1 s) (dedup s)) (rows s))
-    as (A1 & A2 & A3 & A4 & A5 & A6 & A7 & A8 & A9 & A10); simpl; try done.
+  intros [Hk Hbk Ht0 Hlw Hlr Hsw Hsr Hlo Hso Hdd Hva] Hb. unfold replicate.
+  destruct (observe_spec b (St (apply_batch b (rows s)) (li s) (si s) (lov s) (sov s) (txs s) (mode1 s) (dedup s) (lbad s) (sbad s)) (rows s))
+    as (A1 & A2 & A3 & A4 & A5 & A6 & A7 & A8 & A9 & A10 & A11 & A12); simpl; try done.
   split; try done.
   - rewrite A5. simpl. rewrite apply_batch_wmap. apply ov_apply_key_ok; [done|]. intros k r. by apply wmap_key_ok.
   - by rewrite A8.
@@ -436,6 +444,7 @@ Proof.
   - by rewrite A6, A8.
   - by rewrite A7, A8.
   - by rewrite A10.
+  - by rewrite A11, A12.
 Qed.
 
 (* ---- bulk populate (OpenTable over pre-existing rows) ---- *)
@@ -519,7 +528,7 @@ Qed.
 
 Lemma coh_reopen s : coh s -> coh (reopen s).
 Proof.
-  intros [Hk Hbk Ht0 Hlw Hlr Hsw Hsr Hlo Hso Hdd]. unfold reopen.
+  intros [Hk Hbk Ht0 Hlw Hlr Hsw Hsr Hlo Hso Hdd Hva]. unfold reopen.
   destruct (l_populate_spec (rows s) Hk) as [L1 L2]. destruct (s_populate_spec (rows s) Hk) as [S1 S2].
   split; simpl; try done; try apply ov_ok_empty.
   all: try (intros t b; by rewrite lookup_empty).
@@ -540,9 +549,9 @@ Proof.
 Qed.
 
 Lemma coh_begin s t : coh s -> is_open s (S t) = false ->
-  coh (St (rows s) (li s) (si s) (lov s) (sov s) (<[S t := []]> (txs s)) (mode1 s) (dedup s)).
+  coh (St (rows s) (li s) (si s) (lov s) (sov s) (<[S t := []]> (txs s)) (mode1 s) (dedup s) (lbad s) (sbad s)).
 Proof.
-  intros [Hk Hbk Ht0 Hlw Hlr Hsw Hsr Hlo Hso Hdd] Ho.
+  intros [Hk Hbk Ht0 Hlw Hlr Hsw Hsr Hlo Hso Hdd Hva] Ho.
   assert (Hn : txs s !! S t = None).
   { unfold is_open in Ho. apply bool_decide_eq_false in Ho. by apply eq_None_not_Some. }
   split; simpl; try done.
@@ -558,6 +567,7 @@ Qed.
 Definition op_ok (o : op) : Prop :=
   match o with
   | Commit2 _ _ => False              (* kv commits and flushes of two transactions crossed: F22 *)
+  | ReopenFault _ => False            (* storage fault during the populate scan: outside C17's quantifier *)
   | Repl b => batch_ok b              (* a replicated row is stored under its own key *)
   | _ => True
   end.
@@ -583,6 +593,7 @@ Proof.
   - by apply coh_replicate.
   - by destruct (is_open s t).
   - destruct t as [|t]; [done|]. destruct (is_open s (S t)) eqn:E; [|done]. simpl. by apply coh_abort.
+  - done.
 Qed.
 
 Theorem coh_run ops : forall s, coh s -> Forall op_ok ops -> coh (run s ops).
